@@ -264,7 +264,11 @@ class HierDictDocument(DictDocument):
                                                 errors=cls_attrs.unicode_errors)
 
                     elif isinstance(inst, six.binary_type):
-                        retval = self.unicode_from_bytes(cls, inst)
+                        try:
+                            retval = self.unicode_from_bytes(cls, inst)
+                        except UnicodeDecodeError:
+                            # bytes that are not text in the expected encoding
+                            raise ValidationError([key, inst])
 
                     else:
                         retval = inst
